@@ -534,14 +534,26 @@ def clause_f(ctx: Context, idx, res, callers, an, fn: FuncInfo, target: ast.AST)
         if ".<locals>." in T.qualname:
             local = set(T.all_params()) | {n.id for n in walk_no_nested(T.node) if isinstance(n, ast.Name) and isinstance(n.ctx, ast.Store)}
             shared = {n.id for n in walk_no_nested(T.node) if isinstance(n, ast.Name) and isinstance(n.ctx, ast.Load)} - local
-            # direct in-place writes on a free variable
-            for w in an.writes:
-                if w.fn is T:
-                    base = w.target.split("[")[0].split(".")[0]
-                    if base in shared:
-                        ctx.violation("C11f", f"{fn.qualname}|free-write|{T.qualname}|{base}", T.file, w.line,
-                                      f"the per-shot closure {T.name} writes `{w.target}` in place ({w.how}); `{base}` is a free variable shared by all "
-                                      f"shots of the dask.delayed region", w.target)
+            # direct in-place writes on a free variable (subscript / attribute stores, augmented assignment through them, mutator calls)
+            MUTATORS = {"sort", "append", "extend", "insert", "pop", "remove", "clear", "update", "fill", "resize", "put", "itemset", "setdefault", "popitem", "reverse"}
+            for n in walk_no_nested(T.node):
+                tgts = []
+                if isinstance(n, ast.Assign):
+                    tgts = list(n.targets)
+                elif isinstance(n, (ast.AugAssign, ast.AnnAssign)):
+                    tgts = [n.target]
+                elif isinstance(n, ast.Call) and isinstance(n.func, ast.Attribute) and n.func.attr in MUTATORS:
+                    tgts = [ast.Subscript(value=n.func.value, slice=ast.Constant(value=0), ctx=ast.Store())]
+                for t_ in tgts:
+                    b = t_
+                    through = False
+                    while isinstance(b, (ast.Subscript, ast.Attribute)):
+                        b = b.value
+                        through = True
+                    if through and isinstance(b, ast.Name) and b.id in shared:
+                        ctx.violation("C11f", f"{fn.qualname}|free-write|{T.qualname}|{b.id}", T.file, n.lineno,
+                                      f"the per-shot closure {T.name} writes `{norm(n)[:60]}` in place; `{b.id}` is a free variable shared by all "
+                                      f"shots of the dask.delayed region, so concurrently scheduled shots overwrite each other's data", norm(n)[:90])
             for c in calls_in(T.node):
                 for (f, bp2, bk2, _o2) in _callable_targets(idx, res, callers, T, c.func):
                     if f is T:
